@@ -105,6 +105,48 @@ class Sim(object):
             fake_s3.install()
             from playback.tape_cassettes.s3.s3_tape_cassette import S3TapeCassette
             inner = S3TapeCassette('bucket', key_prefix=case.get('s3prefix', ''), read_only=False)
+        elif kind == 'async':
+            # recording goes through the asynchronous wrapper, replays read the wrapped (in-memory) store: what the recorder
+            # asks for is what the other cassettes are asked for; the flusher sleeps, the harness flushes when it looks
+            from playback.tape_cassette import TapeCassette
+            from playback.tape_cassettes.in_memory.in_memory_tape_cassette import InMemoryTapeCassette
+            from playback.tape_cassettes.asynchronous.async_record_only_tape_cassette import AsyncRecordOnlyTapeCassette
+            store = InMemoryTapeCassette()
+            wrapper = AsyncRecordOnlyTapeCassette(store, flush_interval=3600, timeout_on_close=30)
+            wrapper.start()
+            self.async_wrapper = wrapper
+
+            class ThroughWrapper(TapeCassette):
+                def create_new_recording(self, category):
+                    return wrapper.create_new_recording(category)
+
+                def _save_recording(self, recording):
+                    raise AssertionError('not used')
+
+                def save_recording(self, recording):
+                    return wrapper.save_recording(recording)
+
+                def abort_recording(self, recording):
+                    return wrapper.abort_recording(recording)
+
+                def get_recording(self, recording_id):
+                    wrapper._flush_recording()
+                    return store.get_recording(recording_id)
+
+                def get_recording_metadata(self, recording_id):
+                    wrapper._flush_recording()
+                    return store.get_recording_metadata(recording_id)
+
+                def iter_recording_ids(self, *a, **k):
+                    wrapper._flush_recording()
+                    return store.iter_recording_ids(*a, **k)
+
+                def extract_recording_category(self, recording_id):
+                    return store.extract_recording_category(recording_id)
+
+                def close(self):
+                    return wrapper.close()
+            inner = ThroughWrapper()
         else:
             raise ValueError(kind)
         self.spy = make_spy(inner)
@@ -178,6 +220,8 @@ class Sim(object):
     def close(self):
         import time as _t
         self.trm.time = _t.time
+        if getattr(self, 'async_wrapper', None) is not None:
+            self.async_wrapper.close()
         if self.tmpdir:
             shutil.rmtree(self.tmpdir, ignore_errors=True)
 
@@ -592,6 +636,10 @@ class Sim(object):
                 save_ids = [i for k, i in spy.log[log0:] if k == 'save']
                 # the operation is over: its caller goes on using (and changing) the lists / dicts it sent and returned -
                 # what was saved is what they held when the recording was saved
+                if getattr(self, 'async_wrapper', None) is not None:
+                    # (the flusher has caught up by then: until it has, the wrapper holds the values by reference - known
+                    # finding K9, C12's business)
+                    self.async_wrapper._flush_recording()
                 for v in self.handed:
                     if isinstance(v, list):
                         v.append('<changed after the operation>')
